@@ -75,6 +75,12 @@ pub fn dispatch(op: &str, kind: &str, a: &mut Args) -> Option<String> {
             }
             out.join(" | ")
         }
+        // ---- C08: entropies the translator cannot reach (generic helper count_entropy)
+        "hand.Poisson.entropy" => {
+            use rv::traits::Entropy;
+            let rate = a.f();
+            tok(&rv::dist::Poisson::new_unchecked(rate).entropy())
+        }
         "logsumexp" => {
             let xs = a.list(|a| a.f());
             tok(&xs.iter().logsumexp())
